@@ -15,6 +15,7 @@ a block into at most one block (and the bimap holds exactly the pairs that occur
 import itertools
 from fractions import Fraction
 import pv
+import diagfam
 
 # ---------------------------------------------------------------------------------------------------------
 # scenarios
@@ -192,9 +193,14 @@ def gen_candidates(rng, sc):
     spins = sc.spins()
     out = []
     kinds = ["N", "Sz", "site-charge", "orbital-charge", "spin-charge", "linear", "product", "product3", "docc", "hop-operator",
-             "single-n", "constant", "empty", "N-squared", "pair-operator", "shifted-N"]
+             "single-n", "constant", "empty", "N-squared", "pair-operator", "shifted-N", "family", "family"]
     for _ in range(rng.randint(1, 4)):
         k = rng.choice(kinds)
+        if k == "family":
+            # a member of the systematic non-linear family (products of linear forms of both signs, squares, projectors, ...)
+            nm, f = diagfam.family(rng, diagfam.index_info(sc.sites), 1)[0]
+            out.append((nm, diagfam.to_poly(f)))
+            continue
         if k == "N":
             q = [n_op(i) for i in range(n)]
         elif k == "Sz":
@@ -299,6 +305,62 @@ def gen_h_itself(rng):
     return h_itself(ea, eb, rng.choice(DY), spins, extra)
 
 
+def linear_companions(rng, info):
+    """named linear candidates that go with the non-linear ones"""
+    fm = diagfam.forms(info)
+    return [(k, diagfam.to_poly(f)) for k, f in sorted(fm.items())]
+
+
+def gen_nonlinear(rng, kind=None):
+    """a model in which many non-linear diagonal operators are conserved (diagonal H; Heisenberg exchange without hopping; decoupled
+    clusters; spin-conserving hopping) with 1-3 candidates of the non-linear family (checks/diagfam.py), alone or next to linear ones:
+    here the acceptance decision is made by the uniform-shift part of checkSymmetry alone"""
+    kind, sites, lines = diagfam.commuting_model(rng, kind)
+    sc = Scen(sites, lines, "custom")
+    info = diagfam.index_info(sites)
+    cs = [(nm, diagfam.to_poly(f)) for (nm, f) in diagfam.family(rng, info, rng.choice([1, 1, 2, 3]))]
+    r = rng.random()
+    if r < 0.45:
+        lc = linear_companions(rng, info)
+        for c in rng.sample(lc, min(len(lc), rng.choice([1, 2]))):
+            cs.insert(rng.randint(0, len(cs)), c)
+    sc.ioms = [q for (_, q) in cs]
+    sc.tags["cand_kinds"] = [k for (k, _) in cs]
+    sc.tags["want"] = "commuting:" + kind
+    return sc
+
+
+def nonlinear_fixed():
+    """deterministic minimal scenarios of the non-linear family: the operator commutes with H and does not shift uniformly, so it must be
+    rejected; were it accepted, some c^+_i would map a block into two blocks"""
+    AB = [("A", 1, 2), ("B", 1, 2)]
+    ABC = AB + [("C", 1, 2)]
+    L, M = diagfam.lin, diagfam.mul
+    info = diagfam.index_info(AB)
+    fm = diagfam.forms(info)
+    szsz = M(fm["2Sz_A"], fm["2Sz_B"])
+    out = []
+
+    def S(sites, lines, cands):
+        out.append(Scen(sites, lines, "custom", [diagfam.to_poly(f) for (_, f) in cands],
+                        tags={"fixed": "nl%d" % (len(out) + 1), "cand_kinds": [k for (k, _) in cands]}))
+    S(AB, ["addSS A B 1"], [("4Sz_A*Sz_B", szsz)])
+    S(AB, ["addCoulombS A 2 -1", "addCoulombS B 1 -0.25", "addSS A B 0.5", "addSzSz A B -1"], [("N", fm["N"]), ("2Sz", fm["2Sz"]), ("4Sz_A*Sz_B", szsz)])
+    S(AB, ["addSS A B 1"], [("N_A", fm["N_A"]), ("N_B", fm["N_B"]), ("N+4Sz_A*Sz_B", diagfam.add(fm["N"], szsz))])
+    S(AB, ["addLevel A 0.5", "addLevel B -0.25"], [("(n-n)*(n-n)", M(L([(0, 1), (3, -1)]), L([(1, 1), (2, -1)])))])
+    S(AB, ["addLevel A 0.5", "addLevel B -0.25"], [("(N_A-N_B)*2Sz", M(diagfam.add(fm["N_A"], fm["N_B"], -1), fm["2Sz"]))])
+    S(AB, ["addHopping4 A B 1"], [("Nup*Ndn", M(fm["Nspin0"], fm["Nspin1"])), ("N", fm["N"])])
+    S(AB, ["addHopping4 A B 1"], [("(N-1)^2", M(L([(i, 1) for i in range(4)], -1), L([(i, 1) for i in range(4)], -1)))])
+    S(AB, ["addHopping4 A B 1"], [("filled-projector", M(*[L([(i, 1)]) for i in range(4)]))])
+    S(AB, ["addHopping4 A B 1"], [("filled+vacuum", diagfam.add(M(*[L([(i, 1)]) for i in range(4)]), M(*[L([(i, -1)], 1) for i in range(4)])))])
+    S(AB, ["addHopping4 A B 1"], [("N(N-1)(N-2)", M(*[L([(i, 1) for i in range(4)], -k) for k in range(3)]))])
+    S([("A", 1, 1), ("B", 1, 1), ("C", 1, 1)], ["addLevel A 0.5"], [("n*n*n", M(L([(0, 1)]), L([(1, 1)]), L([(2, 1)])))])
+    S([("A", 1, 1), ("B", 1, 1), ("C", 1, 1)], ["addLevel A 0.5"], [("n*(n-n)", M(L([(0, 1)]), L([(1, 1), (2, -1)])))])
+    S(ABC, ["addSS A B 1"], [("(n-n)*(n-n)*(n-n)", M(L([(0, 1), (1, -1)]), L([(2, 1), (3, -1)]), L([(4, 1), (5, -1)])))])
+    S(AB, ["addLevel A 0.5"], [("disguised n*(n+1)", M(L([(0, 1)]), L([(0, 1)], 1))), ("(2Sz_A)^2", M(fm["2Sz_A"], fm["2Sz_A"]))])
+    return out
+
+
 def gen_scenario(rng):
     x = rng.random()
     if x < 0.06:
@@ -369,7 +431,7 @@ def fixed_scenarios():
         Scen([("A", 1, 2), ("B", 1, 2)], ["addHopping4 A B 1", "addHopping8 A B 0.5 0 0 0 1"], "default", tags={"fixed": 12}),
         Scen([("A", 1, 2)], ["addCoulombS A 1 -0.5"] + herm_pair(Fraction(1, 4), [(1, "A", 0, 0), (1, "A", 0, 1)]), "default", tags={"fixed": 13}),
         h_itself(Fraction(1, 2), Fraction(-1, 2), Fraction(1)),
-    ]
+    ] + nonlinear_fixed()
 
 
 # ---------------------------------------------------------------------------------------------------------
@@ -773,6 +835,8 @@ def run(chk):
     ncases = 1200 if quick else 6000
     for _ in range(ncases):
         scens.append(gen_scenario(chk.rng))
+    for _ in range(ncases // 4):
+        scens.append(gen_nonlinear(chk.rng))
     recs, rc, err = run_impl(h, scens)
     if len([r for r in recs.values() if r.get("ended") or r.get("died")]) != len(scens):
         chk.tie_broken("h_c07", "harness answered %d of %d cases (rc=%d) %s" % (len(recs), len(scens), rc, err[-300:]))
